@@ -99,6 +99,18 @@ func (s *tokStream) value() *V {
 	}
 }
 
+func setCuts(c string) {
+	haveForcedCuts = true
+	forcedCuts = nil
+	if c == "-" {
+		return
+	}
+	for _, p := range strings.Split(c, ",") {
+		n, _ := strconv.Atoi(p)
+		forcedCuts = append(forcedCuts, n)
+	}
+}
+
 func replay(path string) {
 	b, err := os.ReadFile(path)
 	if err != nil {
@@ -128,9 +140,11 @@ func replay(path string) {
 		switch ts.next() {
 		case "val":
 			js := ts.next() == "1"
+			setCuts(ts.next())
 			valCase(env, ts.value(), js, js, "replay")
 		case "scr":
 			ts.next()
+			setCuts(ts.next())
 			scrCase(env, ts.str(), "replay")
 		case "hist":
 			n := int(ts.num())
